@@ -805,15 +805,24 @@ def run_translators(run, need_cmp=False):
     return ok
 
 
+def stamp(run, what):
+    import time
+    run.extra.setdefault("timing", []).append("%s@%.0fs" % (what, time.time() - run.t0))
+
+
 def build_all(run, targets, audit_file, allow=()):
     """translators + Coq obligations + harness.  Returns (binpath or None, model_ok)."""
     t_ok = run_translators(run)
+    stamp(run, "translators")
     proved = coqtools.prove(run, targets, audit_file, allow)
+    stamp(run, "prove")
     # the interpreter used by the correspondence check
     okr, lg = coqtools.make(["theories/Expr/Run.vo"])
     if not okr:
         run.tie_broken("coqc theories/Expr/Run.v (model interpreter)", lg[-2000:])
+    stamp(run, "run.vo")
     okb, bindir, blog = harness.build("vp-expr")
+    stamp(run, "harness")
     if not okb:
         run.tie_broken("harness build vp-expr", blog[-3000:])
         return None, okr
@@ -828,7 +837,7 @@ def model_eval(run, tag, cases):
         return []
     try:
         outs = coqtools.coq_eval(tag, IMPORTS, [g_case(e, evs) for e, evs in cases],
-                                 shard=max(10, min(120, len(cases) // 16 + 1)))
+                                 shard=max(20, min(150, len(cases) // 10 + 1)))
     except RuntimeError as ex:
         run.tie_broken("model evaluation (coqc cases %s)" % tag, str(ex)[-1500:])
         return [None] * len(cases)
@@ -991,7 +1000,9 @@ def run_ast_batch(run, binpath, tag, cases):
     """cases: list of (expr, events).  Yields (expr, events, answer, model, verdict-dict)."""
     reqs = [{"op": "eval", "expr": e, "events": evs} for e, evs in cases]
     answers = run_resilient(binpath, reqs)
+    stamp(run, tag + "-impl")
     models = model_eval(run, tag, cases)
+    stamp(run, tag + "-model")
     for (e, evs), a, m in zip(cases, answers, models):
         yield e, evs, a, m, judge_ast(e, evs, a, m)
 
@@ -1126,7 +1137,9 @@ def run_program_batch(run, binpath, tag, cases):
                 continue
             mcases.append((x, c[2]))
             owner.append(k)
+    stamp(run, tag + "-impl")
     mres = model_eval(run, tag, mcases)
+    stamp(run, tag + "-model")
     per = {}
     for k, m in zip(owner, mres):
         per.setdefault(k, []).append(m)
@@ -1219,3 +1232,43 @@ def py_identity_fires(e):
         if kk == "bin":
             fired = fired or py_identity_fires(s)[0]
     return fired, e
+
+
+
+def run_all(run, binpath, tag, ast_cases, prog_cases):
+    """Implementation runs for the AST cases and the program cases, then ONE model batch for both
+    (every coqc shard pays the load time of the libraries once).  Returns
+    ([(expr, events, answer, model, verdict)..], [((where, emits, events, text), answer, verdict)..])."""
+    a_ans = run_resilient(binpath, [{"op": "eval", "expr": e, "events": evs} for e, evs in ast_cases])
+    stamp(run, tag + "-ast-impl")
+    texts = []
+    for where, emits, events in prog_cases:
+        try:
+            texts.append((where, emits, events, program_text(where, emits)))
+        except NoText:
+            continue
+    p_ans = run_resilient(binpath, [{"op": "program", "vpl": t, "events": evs} for _, _, evs, t in texts])
+    stamp(run, tag + "-program-impl")
+    mcases, owner = [], []
+    for k, (c, a) in enumerate(zip(texts, p_ans)):
+        if "abort" in a or isinstance(a.get("unfolded"), dict):
+            continue
+        for x in a["unfolded"]:
+            if has_big_range(x):
+                continue
+            mcases.append((x, c[2]))
+            owner.append(k)
+    models = model_eval(run, tag, list(ast_cases) + mcases)
+    stamp(run, tag + "-model")
+    a_models, p_models = models[:len(ast_cases)], models[len(ast_cases):]
+    ast_out = [(e, evs, a, m, judge_ast(e, evs, a, m)) for (e, evs), a, m in zip(ast_cases, a_ans, a_models)]
+    per = {}
+    for k, m in zip(owner, p_models):
+        per.setdefault(k, []).append(m)
+    prog_out = []
+    for k, (c, a) in enumerate(zip(texts, p_ans)):
+        ms = per.get(k)
+        if ms is not None and not isinstance(a.get("unfolded"), dict) and len(ms) != len(a["unfolded"]):
+            ms = None
+        prog_out.append((c, a, judge_program(c, a, ms)))
+    return ast_out, prog_out
